@@ -566,7 +566,7 @@ class Exec:
                 return ''
             if n in ('float64', 'float32', 'untyped float'):
                 return FloatV(0.0)
-            if n == 'unsafe.Pointer':
+            if n in ('unsafe.Pointer', 'Pointer'):
                 return None
             return 0
         if k == 'struct':
@@ -1138,7 +1138,7 @@ class Exec:
             if isinstance(v, OpaqueBytes):
                 return v
             return SymBytes(v)
-        if td['k'] == 'ptr' or tb == 'unsafe.Pointer':
+        if td['k'] == 'ptr' or tb in ('unsafe.Pointer', 'Pointer') or fb in ('unsafe.Pointer', 'Pointer'):
             return v
         if td['k'] == fd['k']:
             return v
@@ -1584,6 +1584,11 @@ def op_slice(ex, fr, ins, b):
         hook = getattr(a, 'go_slice', None) or getattr(x, 'go_slice', None)
         if hook:
             fr.regs[ins['r']] = hook(ex, lo, hi)
+            return
+        if isinstance(a, int) or is_sym(a):
+            # byte view of an atomically modelled value (uuid.UUID, or an integer through unsafe.Pointer)
+            n = ex.prog.under(ex.prog.types[ins['xt']]['elem']).get('len', 16)
+            fr.regs[ins['r']] = OpaqueBytes(a, n)
             return
     if isinstance(x, Slice):
         lo = 0 if lo is None else lo
